@@ -128,3 +128,71 @@ Fixpoint count_reviewed (p : prov) : nat :=
   | PPtf a | PDir a | PBase a | PTmp a | PRebase a => count_reviewed a
   | _ => 0
   end.
+
+(* ================================================================= the application side (radicale/app/*.py)
+   How a string handed to a storage entry point was obtained, read off the source text. *)
+Inductive aprov : Type :=
+| ASan                          (* pathutils.sanitize_path(<anything>) *)
+| ALit (s : string)
+| ASuffix (a : aprov)           (* a[len(prefix):]  (taken under the startswith(prefix + "/") guard) *)
+| AStrip (a : aprov) | AUnstrip (a : aprov)          (* pathutils.strip_path / unstrip_path *)
+| ADirname (a : aprov) | ABasename (a : aprov)       (* posixpath.dirname / basename *)
+| AJoin (a b : aprov) | ACat (a b : aprov)           (* posixpath.join, string concatenation *)
+| AUserPath (a : aprov)         (* "/%s/" % a *)
+| ASafeComp                     (* "" or a value that passed is_safe_path_component (the login name at the gate) *)
+| AConfig                       (* a configuration value (names of the predefined collections) *)
+| AFromStorage                  (* an attribute of an object returned by the storage (item.href, collection.path) *)
+| ANameFromPath                 (* pathutils.name_from_path(...): checks is_safe_path_component *)
+| ANone
+| AParam (f x : string)         (* parameter of a function of radicale/app: resolved through app_calls;
+                                   ("do_*", "path") is what the gate hands to every handler *)
+| AEither (a b : aprov)
+| AUnknown (why : string).
+
+Inductive arole := RPath | RName | RToken.
+Record asite := mkASite { a_file : string; a_fun : string; a_entry : string; a_role : arole; a_line : N; a_prov : aprov }.
+Definition acalltab := list (string * string * aprov).
+Definition acallers (calls : acalltab) (f x : string) : list aprov :=
+  map snd (filter (fun e => String.eqb (fst (fst e)) f && String.eqb (snd (fst e)) x) calls).
+
+(* "sanitised-like": the result of sanitize_path, "/", a "/"-aligned suffix of one, the parent of one, the principal
+   path of a checked login name (optionally followed by a configured collection name). *)
+Fixpoint san_like (calls : acalltab) (fuel : nat) (a : aprov) : bool :=
+  match fuel with
+  | O => false
+  | S k =>
+    match a with
+    | ASan => true
+    | ALit s => String.eqb s "/"
+    | ASuffix b => san_like calls k b
+    | AEither b c => san_like calls k b && san_like calls k c
+    | AUserPath ASafeComp => true
+    | ACat (AUserPath ASafeComp) AConfig => true
+    | AUnstrip (ADirname (AStrip b)) => san_like calls k b
+    | AParam f x => forallb (san_like calls k) (acallers calls f x)
+    | _ => false
+    end
+  end.
+
+(* a name: last component of a sanitised-like path, a checked name, a name the storage returned, or None *)
+Fixpoint name_like (calls : acalltab) (fuel : nat) (a : aprov) : bool :=
+  match fuel with
+  | O => false
+  | S k =>
+    match a with
+    | ABasename (AStrip b) => san_like calls FUEL b
+    | ANameFromPath | AFromStorage | ANone => true
+    | AEither b c => name_like calls k b && name_like calls k c
+    | AParam f x => forallb (name_like calls k) (acallers calls f x)
+    | _ => false
+    end
+  end.
+
+Definition asite_ok (calls : acalltab) (s : asite) : bool :=
+  match a_role s with
+  | RPath => san_like calls FUEL (a_prov s)
+  | RName => name_like calls FUEL (a_prov s)
+  | RToken => true                 (* any text: the storage validates it (C06_token) *)
+  end.
+
+Definition app_sites_ok (calls : acalltab) (sites : list asite) : bool := forallb (asite_ok calls) sites.
